@@ -202,12 +202,13 @@ def run_wire(ctx, prop):
         stats["fidelity"] = dist
         cov.setdefault("samples", []).append({"wire_session": cases[0]["ops"][:3]} if cases else {})
     # ---------------------------------------------------------------- persistent connections with an idle gap (C12)
-    if prop == "C12":
+    if prop in ("C12", "C09"):
         out = C.run_harness(ctx, bins["wire"], ["--server", server, "--mode", "idle", "--cases", 1 if quick else 6, "--seed", ctx.seed], timeout=2400)
         idle_rows = [r for r in _lines(out) if r.get("mode") == "idle"]
         for r in idle_rows:
             ws = r["wires"]
-            inp = {"protocol": ["http", "grpc", "resp"][r["proto"]], "history": "ONE connection: 3 unit requests back to back (max_burst 2, 10 per 3 s = one token per 300 ms), 1000 ms idle, 1 more unit request",
+            inp = {"protocol": ["http", "grpc", "resp"][r["proto"]], "history": "ONE connection: 3 unit requests back to back (max_burst 2, 10 per 3 s = one token per 300 ms), 1000 ms idle, 1 more unit request"
+                   + (" whose first 9 bytes were written BEFORE the idle gap" if r.get("split") else ""),
                    "first_three_took_ms": r.get("first3_ms"), "answers": ws}
             if r.get("first3_ms", 0) > 150:
                 stats["idle_rounds_too_slow_to_judge"] = stats.get("idle_rounds_too_slow_to_judge", 0) + 1
@@ -215,20 +216,20 @@ def run_wire(ctx, prop):
             ok = (len(ws) == 4 and all("a" in w for w in ws) and [w["a"] for w in ws[:3]] == [True, True, False]
                   and ws[3]["a"] is True and ws[3]["rem"] == 1 and all(w["lim"] == 2 for w in ws))
             if not ok:
-                ctx.violations.append({"what": "C12: on a persistent %s connection the answers are not the library's for the times the requests arrive (after a 1000 ms idle gap - more than three emission intervals - "
+                ctx.violations.append({"what": prop + ": on a persistent %s connection the answers are not the library's for the times the requests arrive (after a 1000 ms idle gap - more than three emission intervals - "
                                                "the bucket is full again: the fourth request must be allowed with remaining 1)" % inp["protocol"], "input": inp})
             else:
                 n_ok += 1
         n_eval += 4 * len(idle_rows)
         stats["idle_connections"] = {"connections": len(idle_rows)}
-        long_rows = [r for r in _lines(out) if r.get("mode") == "long"]
+        long_rows = [r for r in _lines(out) if r.get("mode") == "long"] if prop == "C12" else []
         for r in long_rows:
             n_eval += r["answered_correctly"]
             if r["first_bad"] >= 0:
                 ctx.violations.append({"what": "C12: on a long-lived RESP connection command #%d (0-based) is not answered with the library's decision (allowed, limit 1000, remaining %d): %s"
                                                % (r["first_bad"], 999 - r["first_bad"], json.dumps(r["bad_wire"])[:200]),
                                        "input": {"history": "ONE RESP connection, %d unit THROTTLE commands on one fresh key (max_burst 1000, 1 per 3600 s), %s; each command answered before the next is sent"
-                                                 % (r["n"], ["key of 1500 bytes (every command spans two reads of the server)", "every command written as two segments (cut 4..12 bytes in)", "whole commands"][r["variant"]]),
+                                                 % (r["n"], ["key of 1500 bytes (every command spans two reads of the server)", "every command written as two segments (cut 4..12 bytes in)", "whole commands", "every command exactly %d bytes long (the server's read chunk)" % r.get("cmd_bytes", 0)][r["variant"]]),
                                                  "commands_answered_correctly_before": r["answered_correctly"]}})
             else:
                 n_ok += 1
